@@ -4,6 +4,7 @@
 -/
 import Pdlv.Lemmas.JavaChunk
 import Pdlv.Lemmas.JavaArrays
+import Pdlv.Lemmas.JavaEnumArrays
 import Pdlv.Lemmas.JavaSerChild
 import Pdlv.Thm.C03
 
@@ -102,7 +103,8 @@ theorem java_reads_groups_of_8_16_32_bits (c : Cfg) (nm : String) (items : Items
 
 /-- **C19, parser with arrays and payloads.**  For every packet or struct without parent made of bit-field groups of 8, 16
     or 32 bits — among them size and count fields that are NOT exactly as wide as a Java integral type, without modifier —,
-    arrays of 8-, 16-, 32- or 64-bit scalars of every shape (static count, count field, size field, rest of the packet) and a
+    arrays of 8-, 16-, 32- or 64-bit scalars and enums (closed or open: an undeclared value of a closed enum is the exception
+    `fromX` throws) of every shape (static count, count field, size field, rest of the packet) and a
     payload (sized, before static fields, or last) (`Java.decWfItems2`), both byte orders and EVERY byte string a Java array can
     hold (fewer than 2^31 octets): the model of the emitted `fromBytes(byte[])` returns an object exactly when the reference
     `decode_full` accepts, with the same field values — the sizes read as Java `int`s, the element count derived from a size by
@@ -159,6 +161,17 @@ example :
     Java.encBody { e := .little } (.root "P" items) (.obj [("t", .int 1), ("a", .arr [.int 0x1234, .int 0x5678]), ("u", .int 3),
       ("b", .arr [.int 9, .int 8]), ("payload", .arr [.int 0xaa])]) = .ok [0x09, 0x34, 0x12, 0x78, 0x56, 0x32, 9, 8, 0xaa] := by
   refine ⟨by decide, by rfl⟩
+
+/-! non-vacuity: `enum E : 8 { A = 1, B = 2 } packet P { _count_(x): 4, u: 4, x: E[] }` is in the extended class; `12 01 02` is
+    read as `x = [A, B]`, and `11 07` (an undeclared value) is rejected by the emitted parser and by the reference -/
+example :
+    let e : Enum.Decl := { width := 8, tags := [.value { id := "A", value := 1 }, .value { id := "B", value := 2 }] }
+    let items : Items := .cons (.chunk [.count "x" 4, .scalar "u" 4]) (.cons (.array "x" (.enumTy "E" e) (.static 1) .countField none) .nil)
+    decWfItems2 items = true ∧
+    Java.decodeFull { e := .little } (.root "P" items) [0x12, 1, 2] = .ok (.obj [("u", .int 1), ("x", .arr [.int 1, .int 2])]) ∧
+    (Java.decodeFull { e := .little } (.root "P" items) [0x11, 7]).isOk = false ∧
+    (Pdlv.decodeFull { e := .little, mode := .ideal } (.root "P" items) [0x11, 7]).isOk = false := by
+  refine ⟨by decide, by rfl, by rfl, by rfl⟩
 
 /-! non-vacuity: `packet P { a: 3, _fixed_ = 5 : 5, e: 16, _reserved_ : 8 }` is in the class -/
 example :
